@@ -178,6 +178,11 @@ def stress(ctx, n):
     ctx.count("racefinish:" + out[0].split(" ")[0])
     if not out[0].startswith("ok"):
         ctx.violation("two simultaneous finishes of one seed: " + out[0], {"domain": "reactor", "racefinish": True, "impl": out[0]})
+    rc, out, err = core.run_impl("reactor", [json.dumps({"op": "racefeedback", "rounds": 100000 if ctx.thorough() else 20000})], timeout=1200)
+    ctx.case("racefeedback", True)
+    ctx.count("racefeedback:" + out[0].split(" ")[0])
+    if not out[0].startswith("ok"):
+        ctx.violation("a feedback racing a finish of the same seed: " + out[0], {"domain": "reactor", "racefinish": True, "impl": out[0]})
     lines = []
     for i in range(n):
         lines.append(json.dumps({"op": "stress", "tokens": ctx.rng.choice([1, 2, 5, 16]), "producers": ctx.rng.choice([1, 3, 8]),
